@@ -33,8 +33,18 @@ def build_via_setters(cfg, p, seed):
     q = dict(p)
     q["data"] = r.choice(("", "aa", "bb" * 40))
     q["seg_meta"] = r.choice((None, [1, ""], [2, "0102"], [3, "11" * 63]))
-    obj = C.build("file_data", cfg, q)
-    steps = [lambda: setattr(obj, "file_data", bytes.fromhex(p["data"])),
+    # the ids / sequence number start with other values and are written into the header's field objects afterwards (integer, octets
+    # of the field width, or a longer receive buffer from which the field takes its own width)
+    c0 = dict(cfg)
+    ids = []
+    for name, attr, w in (("src", "source_entity_id", cfg["idw"]), ("dst", "dest_entity_id", cfg["idw"]), ("seq", "transaction_seq_num", cfg["seqw"])):
+        if r.random() < 0.5:
+            c0[name] = (cfg[name] ^ 1) & ((1 << 8 * w) - 1)
+            how = r.choice(("int", "bytes", "longer_bytes"))
+            val = cfg[name] if how == "int" else cfg[name].to_bytes(w, "big") + (b"" if how == "bytes" else b"\xa5\x5a\x00")
+            ids.append(lambda attr=attr, val=val: setattr(getattr(obj.pdu_header, attr), "value", val))
+    obj = C.build("file_data", c0, q)
+    steps = ids + [lambda: setattr(obj, "file_data", bytes.fromhex(p["data"])),
              lambda: setattr(obj, "segment_metadata", None if p["seg_meta"] is None else X.SegmentMetadata(X.RecordContinuationState(p["seg_meta"][0]), bytes.fromhex(p["seg_meta"][1])))]
     if r.random() < 0.5:
         obj.pack()
